@@ -48,6 +48,17 @@ ORDERED = ("int", "float", "dt", "td")
 DT0 = "2020-01-01"
 
 
+DT0_NS = "2021-03-04 05:06:07.123456789"
+_TSCALE = None
+
+
+def set_time_scale(scale):
+    """None: datetimes / timedeltas 12 h / 30 min apart (plus a few ns); "ns": one nanosecond apart, so that ranges a few
+    nanoseconds wide and exclusion lists inside them are generated (set per case by evaluate: a pure function of the case)."""
+    global _TSCALE
+    _TSCALE = scale
+
+
 def cls_of(tag):
     return DTYPES[tag][0]
 
@@ -72,10 +83,16 @@ def conc(tag, a):
         return float(a) * 0.25
     if k == "bool":
         return bool(int(a) % 2)
+    # (a few nanoseconds on top, still monotone: values with a sub-microsecond part are where pandas / numpy / python
+    # scalars of the same instant stop hashing alike)
     if k == "dt":
-        return pd.Timestamp(DT0, tz=_tz(tag)) + pd.Timedelta(hours=12) * int(a)
+        if _TSCALE == "ns":  # consecutive abstract values are consecutive nanoseconds
+            return pd.Timestamp(DT0_NS, tz=_tz(tag)) + pd.Timedelta(nanoseconds=int(a))
+        return pd.Timestamp(DT0, tz=_tz(tag)) + pd.Timedelta(hours=12) * int(a) + pd.Timedelta(nanoseconds=int(a) % 5)
     if k == "td":
-        return pd.Timedelta(minutes=30) * int(a)
+        if _TSCALE == "ns":
+            return pd.Timedelta("3 days") + pd.Timedelta(nanoseconds=int(a))
+        return pd.Timedelta(minutes=30) * int(a) + pd.Timedelta(nanoseconds=int(a) % 5)
     if k == "complex":
         return complex(float(a) * 0.5, -float(a))
     raise KeyError(tag)
@@ -105,10 +122,10 @@ def neighbours(tag, v, m):
             out.append(v + j * 0.125)
     elif k == "dt":
         for j in range(-2 * m, 2 * m + 1):
-            out.append(v + pd.Timedelta(hours=6) * j)
+            out.append(v + (pd.Timedelta(nanoseconds=1) if _TSCALE == "ns" else pd.Timedelta(hours=6)) * j)
     elif k == "td":
         for j in range(-2 * m, 2 * m + 1):
-            out.append(v + pd.Timedelta(minutes=15) * j)
+            out.append(v + (pd.Timedelta(nanoseconds=1) if _TSCALE == "ns" else pd.Timedelta(minutes=15)) * j)
     elif k == "bool":
         out = [False, True]
     elif k == "complex":
